@@ -86,6 +86,11 @@ var wireLeaf = map[string]string{
 	"pkg/edition/java/proto/util.ReadVarIntReturnN": "varint",
 	"pkg/edition/java/proto/util.WriteVarInt":       "varint",
 	"pkg/edition/java/proto/util.WriteVarIntN":      "varint",
+	// a boolean is one byte on the wire, but a byte that only ever carries 0/1: writing a byte-valued
+	// field through WriteBool (or reading one through ReadBool) squashes it, so the token is its own
+	// symbol; a byte read accepts it (wireIncluded), a bool read does not accept a byte.
+	"pkg/edition/java/proto/util.WriteBool": "bool",
+	"pkg/edition/java/proto/util.ReadBool":  "bool",
 }
 
 // wireOpaque: third-party codecs whose payload the other side handles as raw, pre-serialised bytes.
@@ -758,6 +763,12 @@ func wireIncluded(a, b wAuto) (ok bool, witness []string, empty bool, err error)
 				continue
 			}
 			nb := b.step(cur.sb, t)
+			if t == "bool" {
+				// the reader may take a boolean as a plain byte (nothing is lost)
+				for k := range b.step(cur.sb, "b") {
+					nb[k] = true
+				}
+			}
 			k := setKey(na) + "|" + setKey(nb)
 			if seen[k] {
 				continue
